@@ -906,7 +906,9 @@ func c12Run(r *Run) {
 			})
 			return found
 		}
-		if consults(fd, 0) {
+		if consults(fd, 0) && len(baseCalls(fd)) > 0 && c12MissBeforeBase(pkg.TypesInfo, fd, baseCalls(fd)) {
+			r.bad(key, fd.Pos(), "the lookup can answer \"not found\" (false, or a found-flag that may be false) on a path that has not asked the base VM: names of that form defined on the base VM are not resolvable through the TempVM")
+		} else if consults(fd, 0) {
 			r.ok(key, fd.Pos(), "the lookup consults the base VM")
 		} else {
 			r.bad(key, fd.Pos(), "the lookup never consults the base VM: names defined on the base VM are not resolvable through the TempVM")
@@ -1015,12 +1017,56 @@ func c12MissBeforeBase(info *types.Info, fd *ast.FuncDecl, base map[string]*ast.
 	for _, c := range base {
 		isBase[c] = true
 	}
-	type st struct{ asked bool }
+	type st struct {
+		asked bool
+		yes   map[types.Object]bool // bool variables known to be true on this path
+	}
 	bad := false
 	h := &Hooks{Info: info}
-	h.Copy = func(s State) State { c := *s.(*st); return &c }
-	h.Join = func(a, b State) State { return &st{a.(*st).asked && b.(*st).asked} }
-	h.Equal = func(a, b State) bool { return *a.(*st) == *b.(*st) }
+	h.Copy = func(s State) State {
+		n := &st{asked: s.(*st).asked, yes: map[types.Object]bool{}}
+		for k := range s.(*st).yes {
+			n.yes[k] = true
+		}
+		return n
+	}
+	h.Join = func(a, b State) State {
+		n := &st{asked: a.(*st).asked && b.(*st).asked, yes: map[types.Object]bool{}}
+		for k := range a.(*st).yes {
+			if b.(*st).yes[k] {
+				n.yes[k] = true
+			}
+		}
+		return n
+	}
+	h.Equal = func(a, b State) bool {
+		x, y := a.(*st), b.(*st)
+		if x.asked != y.asked || len(x.yes) != len(y.yes) {
+			return false
+		}
+		for k := range x.yes {
+			if !y.yes[k] {
+				return false
+			}
+		}
+		return true
+	}
+	h.Cond = func(e ast.Expr, truth bool, s State) State {
+		if id, ok := ast.Unparen(e).(*ast.Ident); ok && truth {
+			s.(*st).yes[info.Uses[id]] = true
+		}
+		return s
+	}
+	h.Stmt = func(stm ast.Stmt, s State) State {
+		if as, ok := stm.(*ast.AssignStmt); ok {
+			for _, l := range as.Lhs {
+				if id, ok := l.(*ast.Ident); ok {
+					delete(s.(*st).yes, info.ObjectOf(id))
+				}
+			}
+		}
+		return s
+	}
 	h.Visit = func(e ast.Expr, s State) State {
 		if c, ok := e.(*ast.CallExpr); ok && isBase[c] {
 			s.(*st).asked = true
@@ -1035,9 +1081,17 @@ func c12MissBeforeBase(info *types.Info, fd *ast.FuncDecl, base map[string]*ast.
 			if exprStr(res) == "false" {
 				bad = true
 			}
+			// return f, ok — a found-flag that may be false hands out a miss as well
+			if id, ok := ast.Unparen(res).(*ast.Ident); ok {
+				if v, ok := info.Uses[id].(*types.Var); ok {
+					if bt, ok := v.Type().Underlying().(*types.Basic); ok && bt.Kind() == types.Bool && !s.(*st).yes[v] {
+						bad = true
+					}
+				}
+			}
 		}
 	}
-	WalkFunc(h, fd.Body, &st{})
+	WalkFunc(h, fd.Body, &st{yes: map[types.Object]bool{}})
 	return bad
 }
 
